@@ -2334,12 +2334,13 @@ class Interp:
         return flow, value, env
 
     def run_tail(self, f, text, values):
-        """The statements of function f that follow the loop `text` (a statement at the top level of the function body), run to the
-        end of the function from the state `values` (parameters and locals by name): returns (value, env)."""
+        """The statements of function f that follow the loop `text` (a statement at the top level of the function body or nested in
+        `if` blocks only), run to the end of the function from the state `values` (parameters and locals by name): (value, env)."""
         loop = self.find_loop(f, text)
-        idx = next((i for i, st in enumerate(f.node.body) if st is loop), None)
-        if idx is None:
-            raise Unsupported(f'tail contract: the loop {text!r} is not a statement at the top level of {f.qualname}')
+        from .source import continuation_after
+        rest = continuation_after(f.node, loop)
+        if rest is None:
+            raise Unsupported(f'tail contract: the loop {text!r} is not at the top level of {f.qualname} (nor nested in if blocks only)')
         env = Env(f.module, f.cls, f)
         env.vars.update(values)
         self.depth += 1
@@ -2347,7 +2348,7 @@ class Interp:
         self.cur_func = f.qualname
         value = None
         try:
-            self.exec_block(f.node.body[idx + 1:], env)
+            self.exec_block(rest, env)
         except _Return as r:
             value = r.value
         finally:
